@@ -478,6 +478,16 @@ def oracle_pair(case):
     return {"nontrivial": True, "classes": ["both_good" if case["good"] else "some_bad"]}
 
 
+def _gmm_case():
+    from .c20 import bad_gmm_case
+    return bad_gmm_case()
+
+
+def _gmm_oracle(case):
+    from .c20 import oracle_bad_gmm
+    return oracle_bad_gmm(case)
+
+
 def subs():
     return [
         Sub("pairs", pair_case(), oracle_pair, 600, 12000, "two hyper-parameters at once (any invalid one must win)"),
@@ -486,6 +496,7 @@ def subs():
         Sub("groups_exhaustive", None, oracle_groups, 2000, 2000, "all group lists over d<=3 (thorough: d<=4) features",
             plain=lambda tier, seed: group_lists(tier)),
         Sub("groups_fit", groups_fit_case(), oracle_groups_fit, 300, 5000, "group lists through fit of the sparse estimators"),
+        Sub("draw_gmm_parameters", _gmm_case(), _gmm_oracle, 120, 1500, "parameter sets of draw_gmm that do not describe a mixture (shared with C20)"),
         Sub("malformed_data", None, oracle_malformed, 200, 200, "malformed training data", plain=malformed_rows),
         Sub("unfitted", None, oracle_unfitted, 20, 20, "calls before fit", plain=unfitted_rows),
     ]
